@@ -571,6 +571,8 @@ def check(case, M):
                     continue
                 if snap["last_size"] != nd or snap["restarts"] != si + 1:
                     corr("_last_size/_restarts at a restart differ from the model", f"restart #{si + 1}: impl {(snap['last_size'], snap['restarts'])} model {(nd, si + 1)}")
+                if si >= 3 and si != len(ob["snaps"]) - 1:
+                    continue            # the grammar is compared for the first three restarts and the last one of a task
                 req, (sn, tn) = _grammar_wire(snap, [d[1] for d in pos_sc], case["prior"])
                 ga = M.ask(req)
                 if ga[0] != "ok":
